@@ -53,6 +53,7 @@ type Ctx struct {
 	Explanation string
 	Exhaustive  bool
 	Variant     string // build configuration label for thorough re-evaluations
+	Strict      bool   // undecided obligations fail the check (development aid)
 	minimums    []minimum
 	start       time.Time
 }
@@ -81,9 +82,24 @@ func (c *Ctx) Fail(rule, construct, pos, detail string) {
 	c.add(rule, construct, pos, Violation, detail)
 }
 
-// Undecided records that an anchor / idiom could not be resolved; it fails the check.
+// Undecided records that an anchor / idiom could not be resolved: the rule has no positive
+// evidence either way. It is reported (NOT-DECIDED line, evidence) but does not fail the
+// check unless Strict is set: an alarm is raised only for a construct that is positively
+// identified as violating, never for code the rule merely does not recognise.
 func (c *Ctx) Undecided(rule, construct, detail string) {
 	c.add(rule, construct, "", Undecided, detail)
+}
+
+// Expect is Check for "the expected construct is present" obligations: when cond is false the
+// rule has not found what it looks for, which is not evidence of a violation (the construct
+// may have moved or changed shape): the obligation is recorded as undecided.
+func (c *Ctx) Expect(cond bool, rule, construct, pos, okDetail, missDetail string) bool {
+	if cond {
+		c.Ok(rule, construct, pos, okDetail)
+	} else {
+		c.add(rule, construct, pos, Undecided, missDetail)
+	}
+	return cond
 }
 
 // Check is Ok/Fail by condition.
@@ -147,13 +163,18 @@ func (c *Ctx) Finish(verifDir string, seed int64, checkerCmd string) int {
 		}
 		return a.Construct < b.Construct
 	})
-	nKnown, nViol := 0, 0
+	nKnown, nViol, nUndecided := 0, 0, 0
 	outDir := filepath.Join(verifDir, "out", c.Prop)
 	_ = os.RemoveAll(outDir)
 	var lines []string
 	for i := range c.Obs {
 		o := &c.Obs[i]
 		if o.Verdict != Violation && o.Verdict != Undecided {
+			continue
+		}
+		if o.Verdict == Undecided && !c.Strict {
+			nUndecided++
+			lines = append(lines, fmt.Sprintf("NOT-DECIDED %s: %s -- %s", o.Rule, o.Construct, o.Detail))
 			continue
 		}
 		matched := false
@@ -250,7 +271,7 @@ func (c *Ctx) Finish(verifDir string, seed int64, checkerCmd string) int {
 	for _, l := range lines {
 		fmt.Println(l)
 	}
-	fmt.Printf("%s tier=%s obligations=%d discharged=%d known=%d undischarged=%d functions=%d load=%.1fs\n", c.Prop, c.Tier, len(c.Obs), nDis, nKnown, nViol, len(fns), c.P.LoadSecs)
+	fmt.Printf("%s tier=%s obligations=%d discharged=%d known=%d undischarged=%d undecided=%d functions=%d load=%.1fs\n", c.Prop, c.Tier, len(c.Obs), nDis, nKnown, nViol, nUndecided, len(fns), c.P.LoadSecs)
 	if nViol > 0 {
 		return 1
 	}
